@@ -1,5 +1,14 @@
 # -*- coding: utf-8 -*-
-"""C08 - error values propagate through operators and can be trapped"""
+"""C08 - error values propagate through operators and can be trapped
+
+case kinds (both are sent to the Lean model, `request` never returns None):
+  formula  one of 25 fixed formulas, evaluated as written; the oracle judges only the shape of the record
+  tree     an expression tree (nodes err / num / arr / neg / call ID / bin) rendered fully parenthesised and evaluated under
+           the 10 wrappings of WRAPS, followed by each of its family producers evaluated alone (the observed error code);
+           sources: FIXED_TREES, text spelling an error code, random trees (gen), sweep 1 (producer families x operators),
+           sweep 2 (error operand x array operand)
+`gen` / `render` / WRAPS / CODES / `parser` / `model_env` are re-used by the plugins c01, c02 and c03.
+"""
 import random as _random
 from fractions import Fraction
 
@@ -17,34 +26,93 @@ FUNCTIONS = ['hotxlfp.formulas.operators:evaluate_arithmetic', 'hotxlfp.formulas
              'hotxlfp.formulas.logic:IFERROR', 'hotxlfp.formulas.logic:IFNA', 'hotxlfp.formulas.information:ISERROR',
              'hotxlfp.formulas.information:ISERR', 'hotxlfp.formulas.information:ISNA', 'hotxlfp.formulas.information:ERROR_TYPE',
              'hotxlfp.formulas.utils:inumbers']
-RULE = ('expression trees (all 11 binary operators, unary minus, calls; depth <= 5 quick / 7 thorough) in which a seeded subset '
-        'of leaves is an error-producing sub-expression: each code as a literal, as an error-valued variable or cell, produced by an '
-        'operator (1/0, "a"+1), returned by a builtin (NA()), raised by a builtin (SUM(1/0)), raised by a host function as '
-        'an XLError or as an ordinary exception; plus seeded families of further producers whose code is OBSERVED by evaluating '
-        'the producer alone: (a) operator-produced errors through every path of the operator layer - date arithmetic whose result '
-        'precedes 1900 (DATE()/date variable/date text with + - * / and a number or blank, both orders, i.e. the result '
-        'conversion of the implicit-conversion table), text that is neither number nor date under each of + - * / against '
-        'number/text/logical/blank/date/cell, division by blank/FALSE/"0"/0.0/empty cell/blank variable; (b) errors returned or '
-        'raised by builtins of the math, date, lookup, text, statistical, engineering, logic and information families '
-        '(SQRT(-1), LN(0), DATE(10000,1,1), INDEX({..},9), MATCH(..), CHOOSE(9,1), ...), also nested in SUM/ABS/MAX/ID/IF. '
-        '(c) ARRAY operands next to error operands: an error-valued expression on one side of + - * / and an array-valued one '
-        '(array literal with , ; \\ separators, list-valued variable, range; flat of length 1/2/3, nested 2x2, column; '
-        'also sums/products of equal-shape arrays and scalars) on the other, in both orders, used as error leaves of the trees. '
-        'Every tree is evaluated bare and under IFERROR/IFNA/ISERROR/ISERR/ISNA/ERROR.TYPE, under ID(), unary minus and =1; '
-        'two sweeps put every producer family / array shape x operator x order at the top, to the right of another error '
-        'operand and under a further operator on every run. Non-trivial = at least one error leaf and one operator above it.')
-TRUSTED = ['builtins outside the modelled families are compared by the oracle only',
-           'the code of a family producer is the one the implementation reports when the producer is the whole formula (an error that '
-           'reaches the top is reported under error); a producer that reports no error there is not an error leaf and the case is skipped',
-           'the non-error parts of a tree are generated so that they cannot fail on their own (equal-shape arrays only, non-zero '
-           'divisors, no unary minus / comparison / & directly on an array value)']
-ASSUMPTIONS = ['#GETTING_DATA cannot be written as a literal (the lexer stops at the underscore); it is injected as a variable',
+RULE = ('two case kinds, both compared with the Lean model (one c04.batch request per case carrying every form and the host '
+        'environment shared with the implementation run: variables e_<tag> for the 9 codes, dates dt_a/dt_b/dt_c, blank, lists '
+        'lst_a/b/c/n; cells C3 = #DIV/0!, D4 = #N/A, B2 = 7, any other cell empty; range A1:A3; host functions RAISE_<TAG>(), '
+        'PYRAISE(), ID()). Kind formula: 25 fixed formulas (operators, traps, nested traps, literals, raising host functions on '
+        'errors). Kind tree: expression trees (all 11 binary operators, unary minus, ID() calls; skeleton depth 1..5 quick / '
+        '1..7 thorough, number leaves = the 15 primes 2..47, rendered fully parenthesised) whose top is 56% a numeric '
+        'expression (+ - *, / by a leaf, unary minus, ID(), comparison used as a number), 25% a comparison (a quarter of them '
+        'between & concatenations), 15% a & concatenation, 4% a TEXT spelling one of the 9 error codes (30% lower-cased; one '
+        'literal or a concatenation of two pieces cut at a random place, 30% through ID()): not an error. Each leaf is with '
+        'probability 0.15 / 0.3 / 0.6 (drawn per tree) an error-producing sub-expression: 15% of them an error/array node (c), '
+        'of the rest 55% a producer whose code is known by construction - one of 7 codes as a literal (not #ERROR!, '
+        '#GETTING_DATA), one of 9 as an error-valued variable, produced by an operator (k/0, "a"+1), returned by a builtin '
+        '(NA()), raised by a builtin (SUM(1/0)), handed through a host function (ID(1/0)), raised by a host function as an '
+        'XLError (9 codes) or as an ordinary exception - and 45% one of 6 seeded families whose code is OBSERVED by evaluating '
+        'the producer alone: (a) operator-produced errors through every path of the operator layer - date: 19 forms of date '
+        'arithmetic whose result precedes 1900 (DATE()/date variable/date text with + - * / and a number, blank, empty cell or '
+        'FALSE, both orders, i.e. the result conversion of the implicit-conversion table); text: one of 7 texts (the empty one '
+        'included) that is neither number nor date under each of + - * / against number/text/numeric '
+        'text/logical/blank/date/cell, both orders; div0: division of 11 kinds of numerator by 13 zero-like denominators (NULL, '
+        'FALSE, "0", "0.0", 0, 0.0, blank variable, empty cell, k-k, 0*k, k=k+1, ID(0), SUM(0)); (b) builtin: 52 call templates '
+        'returning or raising an error in the math, date, lookup, text, statistical, engineering, logic and information '
+        'families (SQRT(-1), LN(0), DATE(10000,1,1), INDEX({..},9), MATCH(..), CHOOSE(9,1), ...), registered names only; '
+        'nested: a date/text/div0/builtin producer inside one of 8 wrappers over SUM/ABS/MAX/ID/IF (the inner producer is '
+        'probed alone too); cell: the error-valued cells in 6 spellings (relative, absolute, mixed, lower case). (c) ARRAY '
+        'operands next to error operands: on one side of + - * / a tree of depth <= 2 every leaf of which is an error producer '
+        '(any of the 11 operators, unary minus, ID()), on the other an error-free array-valued expression of depth <= 2 (array '
+        'literal with , ; \\ separators, list-valued variable, range in 4 spellings; flat of length 1/2/3, nested 2x2, column; '
+        'also + - * / of equal-shape arrays, one-element arrays and non-zero scalars) or another such node; both orders. Every '
+        'tree is evaluated in 10 forms - bare, under IFERROR/IFNA/ISERROR/ISERR/ISNA/ERROR.TYPE, IFERROR(ID(x)), ISERROR(-(x)), '
+        'IFERROR((x)=1) - followed by each distinct family producer of the tree alone. Tree sources: 19 fixed trees (pre-1900 '
+        'date arithmetic alone and to the right of another error, array next to error, error-free {1,2}+{3,4}); 18 fixed text '
+        'trees (each code as a text literal and as a concatenation of two pieces); 700 quick / 8000 thorough random trees x '
+        'scale (scale 5 in quick when a modelled function changed or the Lean build broke); 2 quick / 12 thorough rounds x '
+        'scale of two sweeps. Sweep 1, 120 trees per round: each of date/text/div0/builtin 4 times, nested/cell twice: the '
+        'producer alone, 3 times to the right of an error-VALUE producer, once to the left of a number or error-value producer '
+        '(operators taken cyclically from a shuffled list of the 11, so the four larger families meet every operator in each '
+        'round), once negated to the right of a number under a random operator. Sweep 2, 85 trees per round: every + - * / x 5 '
+        'array shapes x both orders as a node (c) at the top and under a further random operator with a number or error-value '
+        'producer on either side, plus one error-free array expression per shape (the traps must not fire). 1172 cases quick / '
+        '10522 thorough at scale 1. Non-trivial = every fixed formula; a tree with at least one error leaf all of whose family '
+        'producers report an error when evaluated alone. When a proof or the correspondence broke and no oracle failure was '
+        'found, search() generates the whole family again at scale 8 (5600 / 64000 random trees, 16 / 96 rounds), judged by the '
+        'oracle only, up to the first failure. A failing tree is shrunk to a sub-tree / simplification the same oracle still '
+        'rejects (at most 300 candidates). No time or step budget is used.')
+TRUSTED = ['the model has no opinion (result `(o ...)`) about some producers (unmodelled builtins, date text read by dateutil): '
+           'a tree one of whose family producers gets no opinion is not compared with the model at all, a single form without '
+           'opinion is skipped; these are judged by the oracle only',
+           'the code of a family producer is the one the implementation reports when the producer is the whole formula (an '
+           'error that reaches the top is reported under error); a producer that reports no error there is not an error leaf '
+           'and the case is skipped',
+           'the non-error parts of a tree are generated so that they cannot fail on their own (equal-shape arrays only, '
+           'non-zero divisors, no unary minus / comparison / & directly on an array value)',
+           'comparison with the model: error code and type of the value must match, floats within 4 ulps or 1e-9 relative, '
+           'dates within 2 microseconds (+ 2^-49 relative); the oracle compares IFERROR/IFNA of an error-free value with the '
+           'bare value up to 1e-12 relative for floats and otherwise by == and equal type; the expected trap results (777, 555, '
+           'True/False, ERROR.TYPE number) are compared by == only',
+           'implementation and model receive the same host environment (env_values): the wire rendering of variables, cells and '
+           'ranges and the model counterparts of the host functions (raisexl, raisepy, first) are trusted to describe the '
+           'values, listeners and Python callables registered on the parser',
+           'one Parser instance serves all cases of a run: an evaluation is taken not to depend on earlier ones (looked into by '
+           'the fresh-process probe of the harness only when a disagreement with the model appears)']
+ASSUMPTIONS = ['an expression "is an error" when Parser.parse reports exactly that code under error and an empty result; a '
+               'record with both an error and a result is rejected for every form of every case (the only thing the oracle '
+               'demands of the 25 fixed formulas)',
+               'the leftmost error operand wins under all 11 binary operators (& and the comparisons included), whatever the '
+               'other operand is; unary minus of an error and a host function handing an error through (ID) give that error',
+               'an error LITERAL aborts the whole formula: it reports the code of the leftmost literal, whatever error value '
+               'stands to its left and whatever trapping function encloses it (IFERROR / IFNA / IS* / ERROR.TYPE of it report '
+               'that error too)',
+               '#GETTING_DATA cannot be written as a literal (the lexer stops at the underscore); it is injected as a variable '
+               'or raised by a host function, and so is #ERROR! (never generated as a literal)',
                'an ordinary Python exception raised inside a call counts as the error #ERROR!',
-               'when an operand of + - * / is an error value the operation evaluates to that error also when the other operand is an '
-               'array (not to an array of errors); an array that merely CONTAINS an error element is not an error operand and is not generated',
-               'a call of a name that is not a registered function (#NAME? raised before any call happens) is not a function call in the '
-               'sense of the statement: builtin producers are restricted to names registered in the tree under test',
-               'for an error-free ARRAY value only "IFERROR/IFNA do not substitute" is demanded (IS* of an array is not judged)']
+               'trapping an error value: IFERROR(x,y) = y for all 9 codes (also through ID(x) and (x)=1); IFNA(x,y) = y for '
+               '#N/A only and the error itself otherwise; ISERROR(x) and ISERROR(-(x)) TRUE; ISERR = the code is not #N/A; ISNA '
+               '= the code is #N/A; ERROR.TYPE = 1..8 for #NULL! #DIV/0! #VALUE! #REF! #NAME? #NUM! #N/A #GETTING_DATA; '
+               'ERROR.TYPE of #ERROR! is not judged',
+               'an error-free scalar value: the bare formula reports no error, IFERROR/IFNA return the value unchanged, '
+               'ISERROR/ISERR/ISNA are FALSE; ERROR.TYPE, IFERROR(ID(x)), ISERROR(-(x)) and IFERROR((x)=1) of it are not judged',
+               'text that spells an error code (in either case, written out, concatenated or handed through ID) is text, not an '
+               'error',
+               'when an operand of + - * / is an error value the operation evaluates to that error also when the other operand '
+               'is an array (not to an array of errors); an array that merely CONTAINS an error element is not an error operand '
+               'and is not generated',
+               'a call of a name that is not a registered function (#NAME? raised before any call happens) is not a function '
+               'call in the sense of the statement: builtin producers are restricted to names registered in the tree under test',
+               'for an error-free ARRAY value only "no error, and IFERROR/IFNA do not substitute" is demanded (IS* of an array '
+               'is not judged)']
 
 CODES = {'null': '#NULL!', 'div0': '#DIV/0!', 'value': '#VALUE!', 'ref': '#REF!', 'name': '#NAME?', 'num': '#NUM!',
          'na': '#N/A', 'data': '#GETTING_DATA', 'error': '#ERROR!'}
